@@ -264,7 +264,7 @@ def one_case(ctx, table, name, names, args, pos, lam, scaled):
         ctx.disagree(f"C03:{name}:arg{pos}:{sign}", desc, str(a)[:300], str(b)[:300], replay=rec)
 
 
-def directed(ctx):
+def directed(ctx, prefix="C03"):
     """the raw-coordinate mechanisms named in the property: crossing rule of Polygon.contains (point at the height of a
     vertex), Triangle.contains, Segment.contains, 3-D polygons (projected), with vertex-wise factors of both signs"""
     import geometer as g
@@ -314,7 +314,7 @@ def directed(ctx):
         for label, obj, pp in (("vertices", scaled_obj, p0), ("point", base_obj, p1), ("both", scaled_obj, p1)):
             r = call_impl(lambda: obj.contains(pp))
             if r[0] != r0[0] or (r[0] == "ok" and bool(r[1]) != bool(r0[1])) or (r[0] != "ok" and r[1] != r0[1]):
-                ctx.disagree(f"C03:directed:{kind}.contains:{label}", desc, r0[1:2], r[1:2], replay=[desc])
+                ctx.disagree(f"{prefix}:directed:{kind}.contains:{label}", desc, r0[1:2], r[1:2], replay=[desc])
                 break
 
 
